@@ -349,4 +349,127 @@ theorem fit_roundtrip_lemma (pix : List (ℝ × ℝ)) (lam : ℝ) (theta : Optio
   rw [hsh, lstsq2_exact _ _ (gramDet_ne_zero_of_fullRank _ hrank)]
   exact fit_of_matrix _ _ _ _ hθ1 hθ2 hC hdef h1 h2
 
+def I2 : M2 ℝ := ⟨1, 0, 0, 1⟩
+def M2.tr (x : M2 ℝ) : ℝ := x.a + x.d
+
+theorem M2.mul_assoc' (x y z : M2 ℝ) : M2.mul (M2.mul x y) z = M2.mul x (M2.mul y z) := by
+  simp only [M2.mul]; num_real; apply M2.ext' <;> simp only <;> ring
+theorem M2.transpose_mul (x y : M2 ℝ) : M2.transpose (M2.mul x y) = M2.mul (M2.transpose y) (M2.transpose x) := by
+  simp only [M2.mul, M2.transpose]; num_real; apply M2.ext' <;> simp only <;> ring
+theorem M2.transpose_transpose (x : M2 ℝ) : M2.transpose (M2.transpose x) = x := by
+  cases x; rfl
+theorem M2.one_mul' (x : M2 ℝ) : M2.mul I2 x = x := by
+  simp only [M2.mul, I2]; num_real; apply M2.ext' <;> simp
+theorem M2.mul_one' (x : M2 ℝ) : M2.mul x I2 = x := by
+  simp only [M2.mul, I2]; num_real; apply M2.ext' <;> simp
+theorem M2.transpose_diag (s : ℝ × ℝ) : M2.transpose (M2.diag s) = M2.diag s := by
+  simp only [M2.transpose, M2.diag]
+theorem M2.det_mul (x y : M2 ℝ) : M2.det (M2.mul x y) = M2.det x * M2.det y := by
+  simp only [M2.mul, M2.det]; num_real; ring
+theorem M2.det_transpose (x : M2 ℝ) : M2.det (M2.transpose x) = M2.det x := by
+  simp only [M2.transpose, M2.det]; num_real; ring
+theorem M2.det_diag (s : ℝ × ℝ) : M2.det (M2.diag s) = s.1 * s.2 := by
+  simp only [M2.diag, M2.det]; num_real; ring
+theorem M2.det_I2 : M2.det I2 = 1 := by simp only [I2, M2.det]; num_real; ring
+theorem M2.tr_mul_comm (x y : M2 ℝ) : M2.tr (M2.mul x y) = M2.tr (M2.mul y x) := by
+  simp only [M2.mul, M2.tr]; num_real; ring
+theorem M2.tr_diag (s : ℝ × ℝ) : M2.tr (M2.diag s) = s.1 + s.2 := by
+  simp only [M2.diag, M2.tr]
+
+/-- what `torch.linalg.svd` is assumed to return for a non-singular real 2×2 matrix `m`:
+`m = U·diag(S)·Vh`, `U` and `Vh` orthogonal, singular values positive -/
+def IsSVD (svd : M2 ℝ → M2 ℝ × (ℝ × ℝ) × M2 ℝ) (m : M2 ℝ) : Prop :=
+  M2.mul (M2.mul (svd m).1 (M2.diag (svd m).2.1)) (svd m).2.2 = m ∧
+  M2.mul (M2.transpose (svd m).1) (svd m).1 = I2 ∧
+  M2.mul (M2.transpose (svd m).2.2) (svd m).2.2 = I2 ∧
+  M2.mul (svd m).2.2 (M2.transpose (svd m).2.2) = I2 ∧
+  0 < (svd m).2.1.1 ∧ 0 < (svd m).2.1.2
+
+/-- **the translated `_torch_polar` is the polar decomposition the model uses**: for ANY svd routine that meets
+its specification at `m`, the pair the source computes (`U @ Vh`, `Vh.T @ diag(S) @ Vh` — the RIGHT factor)
+equals the closed form `polar2 m`. -/
+theorem torch_polar_eq_polar2 (svd : M2 ℝ → M2 ℝ × (ℝ × ℝ) × M2 ℝ) (m : M2 ℝ) (h : IsSVD svd m) :
+    torch_polar svd m = polar2 m := by
+  obtain ⟨hm, hU, hV, hV', hs1, hs2⟩ := h
+  simp only [torch_polar]
+  generalize (svd m).1 = U at *
+  generalize (svd m).2.1 = S at *
+  generalize (svd m).2.2 = V at *
+  set u := M2.mul U V with hu
+  set p := M2.mul (M2.mul (M2.transpose V) (M2.diag S)) V with hp
+  have hup : M2.mul u p = m := by
+    rw [hu, hp, M2.mul_assoc' U V, ← M2.mul_assoc' V _ V, ← M2.mul_assoc' V _ (M2.diag S), hV', M2.one_mul',
+      ← M2.mul_assoc' U, hm]
+  have huo : M2.mul (M2.transpose u) u = I2 := by
+    rw [hu, M2.transpose_mul, M2.mul_assoc' _ _ (M2.mul U V), ← M2.mul_assoc' _ U V, hU, M2.one_mul', hV]
+  have hps : M2.transpose p = p := by
+    rw [hp, M2.transpose_mul, M2.transpose_mul, M2.transpose_diag, M2.transpose_transpose, M2.mul_assoc']
+  have hdV : M2.det V * M2.det V = 1 := by
+    have := congrArg M2.det hV
+    rwa [M2.det_mul, M2.det_transpose, M2.det_I2] at this
+  have hdet : M2.det p = S.1 * S.2 := by
+    rw [hp, M2.det_mul, M2.det_mul, M2.det_transpose, M2.det_diag]
+    linear_combination (S.1 * S.2) * hdV
+  have htr : M2.tr p = S.1 + S.2 := by
+    rw [hp, M2.tr_mul_comm, ← M2.mul_assoc', hV', M2.one_mul', M2.tr_diag]
+  have hbc : p.c = p.b := by
+    have := congrArg M2.b hps
+    simpa [M2.transpose] using this
+  have hpe : p = ⟨p.a, p.b, p.b, p.d⟩ := by
+    apply M2.ext' <;> simp only [hbc]
+  have hue : u = ⟨u.a, u.b, u.c, u.d⟩ := by cases u; rfl
+  have h1 : u.a * u.a + u.c * u.c = 1 := by
+    have := congrArg M2.a huo; simpa [M2.mul, M2.transpose, I2] using this
+  have h2 : u.a * u.b + u.c * u.d = 0 := by
+    have := congrArg M2.b huo; simpa [M2.mul, M2.transpose, I2] using this
+  have h3 : u.b * u.b + u.d * u.d = 1 := by
+    have := congrArg M2.d huo; simpa [M2.mul, M2.transpose, I2] using this
+  have htr' : 0 < p.a + p.d := by
+    have : p.a + p.d = S.1 + S.2 := htr
+    rw [this]; linarith
+  have hdet' : 0 < p.a * p.d - p.b * p.b := by
+    have : p.a * p.d - p.b * p.c = S.1 * S.2 := by
+      have h := hdet; simp only [M2.det, NumReal.mul_eq, NumReal.sub_eq] at h; exact h
+    rw [hbc] at this; rw [this]; positivity
+  rw [← hup]
+  conv_rhs => rw [hue, hpe]
+  rw [polar2_unique u.a u.b u.c u.d p.a p.b p.d h1 h2 h3 htr' hdet', ← hue, ← hpe]
+
+
+theorem det_rotNeg_mul (θ C10 C12 φ : ℝ) :
+    M2.det (M2.mul (rotNeg θ) (aberrationMatrix C10 C12 φ)) = C10 ^ 2 - C12 ^ 2 := by
+  rw [M2.det_mul, rotNeg_real, aberrationMatrix_real]
+  simp only [M2.det]; num_real
+  linear_combination (C10 ^ 2 - C12 ^ 2 * (Real.cos (2 * φ) ^ 2 + Real.sin (2 * φ) ^ 2)) * Real.cos_sq_add_sin_sq θ
+    + (-(C12 ^ 2)) * Real.cos_sq_add_sin_sq (2 * φ)
+
+/-- **fit round trip with the translated `_torch_polar`** (any svd routine meeting its specification) -/
+theorem fit_roundtrip_svd_lemma (svd : M2 ℝ → M2 ℝ × (ℝ × ℝ) × M2 ℝ) (hsvd : ∀ m, M2.det m ≠ 0 → IsSVD svd m)
+    (pix : List (ℝ × ℝ)) (lam : ℝ) (theta : Option ℝ) (c : String → ℝ)
+    (hz : ∀ k ∈ POLAR_SYMBOLS.drop 3, c k = 0)
+    (hrank : FullRank (pix.map fun k => (k.1 * lam, k.2 * lam)))
+    (hθ1 : -Real.pi / 2 < theta.getD 0) (hθ2 : theta.getD 0 < Real.pi / 2)
+    (hC : 0 < c "C12") (hdef : c "C12" < |c "C10"|)
+    (h1 : -Real.pi / 2 < c "phi12") (h2 : c "phi12" ≤ Real.pi / 2) :
+    fitTranslated svd (pix.map fun k => (k.1 * lam, k.2 * lam)) (pix.map fun k => lateralShift k.1 k.2 lam theta c)
+      = (c "C10", c "C12", c "phi12", theta.getD 0) := by
+  have hsh : (pix.map fun k => lateralShift k.1 k.2 lam theta c) =
+      (pix.map fun k => (k.1 * lam, k.2 * lam)).map (fun b =>
+        rowMul b (M2.mul (rotNeg (theta.getD 0)) (aberrationMatrix (c "C10") (c "C12") (c "phi12")))) := by
+    rw [List.map_map]
+    apply List.map_congr_left
+    intro k _
+    cases theta with
+    | none => simp only [Function.comp, Option.getD_none]; rw [lateralShift_none, lateralShift_eq _ _ _ _ _ hz]
+    | some t => simp only [Function.comp, Option.getD_some]; rw [lateralShift_eq _ _ _ _ _ hz]
+  unfold fitTranslated
+  rw [hsh, lstsq2_exact _ _ (gramDet_ne_zero_of_fullRank _ hrank)]
+  have hdet : M2.det (M2.mul (rotNeg (theta.getD 0)) (aberrationMatrix (c "C10") (c "C12") (c "phi12"))) ≠ 0 := by
+    rw [det_rotNeg_mul]
+    have : (c "C12") ^ 2 < (c "C10") ^ 2 := by
+      rw [← sq_abs (c "C10")]; exact pow_lt_pow_left₀ hdef hC.le (by norm_num)
+    linarith
+  rw [torch_polar_eq_polar2 svd _ (hsvd _ hdet)]
+  exact fit_of_matrix _ _ _ _ hθ1 hθ2 hC hdef h1 h2
+
 end QuantemModel.Aberration
